@@ -64,6 +64,10 @@ def make_context(spec):
 
     def slave(u):
         blocks = {t: ModbusSequentialDataBlock(base, [init_value(u, t, i) for i in range(n)]) for t in TABLES}
+        if spec.get("poison"):
+            # a holding register holding a float: FC22 on it makes request.execute() raise TypeError
+            # (`float & int`), which only the catch-all of execute()/_execute() turns into exception 04
+            blocks["hr"].values[n - 1] = 1.5
         return ModbusSlaveContext(di=blocks["di"], co=blocks["co"], hr=blocks["hr"], ir=blocks["ir"],
                                   zero_mode=spec.get("zero_mode", True))
     if spec["single"]:
